@@ -435,7 +435,7 @@ func (o *outcome) burst() {
 		k := s.Tuple
 		gated := c.Tuples[k].Gate
 		if s.Cancel == "pre" {
-			w.endSub(i, true, s.Deadline)
+			w.endSub(i, true, s.Deadline, false)
 		}
 		w.mu.Lock()
 		if !c.Tuples[k].SSE && w.pendingInit(k) {
@@ -448,7 +448,7 @@ func (o *outcome) burst() {
 			for y := 0; y < s.At; y++ {
 				runtime.Gosched()
 			}
-			w.endSub(i, true, s.Deadline)
+			w.endSub(i, true, s.Deadline, false)
 		case "init":
 			cw.Add(1)
 			go func() {
@@ -457,14 +457,14 @@ func (o *outcome) burst() {
 					w.wait(watch, 0, func() bool { return st.returned || st.seen > 0 || w.pendingInit(k) })
 					time.Sleep(settle)
 				}
-				w.endSub(i, true, s.Deadline)
+				w.endSub(i, true, s.Deadline, false)
 			}()
 		case "mid":
 			cw.Add(1)
 			go func() {
 				defer cw.Done()
 				w.wait(watch, 0, func() bool { return len(st.msgs) >= s.At || st.terminalAt() >= 0 || (st.returned && st.err != nil) })
-				w.endSub(i, true, s.Deadline)
+				w.endSub(i, true, s.Deadline, false)
 			}()
 		}
 	}
